@@ -1,3 +1,124 @@
 import Usual.Common
-/-! Model driver for C06 (stub: not built yet). -/
-def main : IO Unit := IO.println "stub"
+import Usual.C06.CBTree
+import Usual.C06.Pools
+/-! Model driver for C06: crit-bit tree, strpool, mdict (line protocol, see FRAMEWORK.md). -/
+open Usual Usual.C06
+
+structure St where
+  cb : Option T := none
+  cbNext : Nat := 1
+  sp : StrPool := {}
+  md : MDict := {}
+
+def ids (l : List Entry) : String := ",".intercalate (l.map fun e => toString e.obj)
+def keysHex (l : List Entry) : String := ",".intercalate (l.map fun e => toHex e.key)
+
+def valStr : Val → String
+  | none => "nil"
+  | some v => toHex v
+
+def pairsStr (ps : List (Key × Val)) : String :=
+  ";".intercalate (ps.map fun p => toHex p.1 ++ "=" ++ valStr p.2)
+
+def parseVal (s : String) : Option Val :=
+  if s == "nil" then some none else (parseHex s).map some
+
+def step (s : St) (line : String) : St × String :=
+  match words line with
+  | ["#case"] => ({}, "#case")
+  -- ---------------------------------------------------------------- cbtree
+  | ["ins", hk] =>
+    match parseHex hk with
+    | none => (s, "bad-op")
+    | some k =>
+      let id := s.cbNext
+      match insert s.cb ⟨k, id⟩ with
+      | none => ({ s with cbNext := id + 1 }, s!"0 ## {dump s.cb} live={liveAllocs s.cb}")
+      | some t' => ({ s with cb := t', cbNext := id + 1 }, s!"1 ## {dump t'} live={liveAllocs t'}")
+  | ["get", hk] =>
+    match parseHex hk with
+    | none => (s, "bad-op")
+    | some k =>
+      match lookup s.cb k with
+      | none => (s, "nil")
+      | some e => (s, s!"#{e.obj}")
+  | ["del", hk] =>
+    match parseHex hk with
+    | none => (s, "bad-op")
+    | some k =>
+      match delete s.cb k with
+      | none => (s, s!"0 ## {dump s.cb} live={liveAllocs s.cb}")
+      | some (e, t') => ({ s with cb := t' }, s!"1 freed={e.obj} ## {dump t'} live={liveAllocs t'}")
+  | ["walk", n] =>
+    match n.toNat? with
+    | none => (s, "bad-op")
+    | some stop =>
+      let (l, ok) := walkUntil s.cb stop
+      (s, s!"{keysHex l} {if ok then "ok" else "stop"}")
+  | ["destroy"] =>
+    ({ s with cb := none }, s!"freed={ids (destroyLog s.cb)} live=0")
+  -- --------------------------------------------------------------- strpool
+  | ["sget", hk] =>
+    match parseHex hk with
+    | none => (s, "bad-op")
+    | some k =>
+      let (sp', r) := s.sp.get k
+      match r with
+      | none => ({ s with sp := sp' }, s!"nil ## live={sp'.live}")
+      | some id => ({ s with sp := sp' }, s!"h{id} ref={(refOf sp'.refs id).getD 0} ## live={sp'.live}")
+  | ["sinc", n] =>
+    match n.toNat? with
+    | none => (s, "bad-op")
+    | some id =>
+      match refOf s.sp.refs id with
+      | none => (s, "bad-op")
+      | some _ =>
+        let sp' := s.sp.incref id
+        ({ s with sp := sp' }, s!"ref={(refOf sp'.refs id).getD 0}")
+  | ["sdec", n] =>
+    match n.toNat? with
+    | none => (s, "bad-op")
+    | some id =>
+      match refOf s.sp.refs id with
+      | none => (s, "bad-op")
+      | some _ =>
+        let (sp', rel) := s.sp.decref id
+        ({ s with sp := sp' }, s!"{if rel then "released" else "kept"} ## live={sp'.live}")
+  | ["stotal"] => (s, s!"{s.sp.count}")
+  | ["sfree"] => ({ s with sp := {} }, "live=0")
+  -- ----------------------------------------------------------------- mdict
+  | ["mput", hk, hv] =>
+    match parseHex hk, parseVal hv with
+    | some k, some v =>
+      let (d', ok) := s.md.put k v
+      ({ s with md := d' }, s!"{if ok then 1 else 0} ## live={d'.live}")
+    | _, _ => (s, "bad-op")
+  | ["mget", hk] =>
+    match parseHex hk with
+    | none => (s, "bad-op")
+    | some k =>
+      match s.md.get k with
+      | none => (s, "absent")
+      | some v => (s, valStr v)
+  | ["mdel", hk] =>
+    match parseHex hk with
+    | none => (s, "bad-op")
+    | some k =>
+      let (d', ok) := s.md.del k
+      ({ s with md := d' }, s!"{if ok then 1 else 0} ## live={d'.live}")
+  | ["mwalk"] => (s, pairsStr s.md.pairs)
+  | ["menc"] => (s, toHex (urlencode s.md.pairs))
+  | ["mdec", hs] =>
+    match parseHex hs with
+    | none => (s, "bad-op")
+    | some str =>
+      let (d', ok) := s.md.urldecode str
+      ({ s with md := d' }, s!"{if ok then 1 else 0} ## live={d'.live}")
+  | ["mrt"] =>
+    let enc := urlencode s.md.pairs
+    let (d2, ok) := ({} : MDict).urldecode enc
+    (s, if ok && d2.pairs == s.md.pairs then "same" else "diff")
+  | ["mfree"] => ({ s with md := {} }, "live=0")
+  | _ => (s, "bad-op")
+
+def main : IO Unit := runDriver ({} : St) step
